@@ -108,6 +108,20 @@ fn eta<M: Machine>() -> f64 {
     }
 }
 
+/// A back-transformed answer (exp / reciprocal, rounded to the element type) that lands in the
+/// subnormal range of the element type is quantised to multiples of eta: history and batch may
+/// then differ by a grid step although their accumulation-space values agree to rounding. This is
+/// that step, mapped back into the accumulation space (0 for untransformed machines, whose
+/// tolerances carry eta as an absolute floor already).
+fn out_quant<M: Machine>(tr: Transform, a: f64, b: f64) -> f64 {
+    let m = a.abs().min(b.abs());
+    match tr {
+        Transform::Ln => 2.0 * eta::<M>() / m,
+        Transform::Recip => 2.0 * eta::<M>() / (m * m),
+        _ => 0.0,
+    }
+}
+
 pub fn sorted_records<M: Machine>(w: &World<M>, m: &Model) -> [Vec<Bits>; 2] {
     let mut out: [Vec<Bits>; 2] = [Vec::new(), Vec::new()];
     if M::LOCKSTEP {
@@ -491,7 +505,7 @@ fn mean_stream_check<M: Machine>(slot: u16, s: &Slot<M>, k: usize, o_h: &Obs, o_
         Transform::Recip => 8.0 * u * t.mu.abs(),
         _ => 0.0,
     };
-    let tol = t.dm + slack;
+    let tol = t.dm + slack + out_quant::<M>(tr, mh, mb);
     // history and batch that are both NaN (or bit-identical infinities) are "the same answer";
     // C09 compares the two paths, it does not judge the answer itself (that is C11's business)
     let d = if (th.is_nan() && tb.is_nan()) || mh.to_bits() == mb.to_bits() { 0.0 } else { (th - tb).abs() };
@@ -557,7 +571,13 @@ fn mean_stream_check<M: Machine>(slot: u16, s: &Slot<M>, k: usize, o_h: &Obs, o_
             Transform::Recip => 4.0 * tol / t.mu.abs(),
             _ => 0.0,
         };
-        let tol_e = t.dsd / (t.n - 1.0).sqrt() + semt * (16.0 * u + rel_mean);
+        // the reported standard error is itself rounded to the element type: in its subnormal
+        // range that is an absolute step of eta, i.e. eta / jacobian in the accumulation space
+        let quant_e = match tr {
+            Transform::Ln | Transform::Recip => 2.0 * eta::<M>() / jac(mh.abs().min(mb.abs())),
+            _ => 0.0,
+        };
+        let tol_e = t.dsd / (t.n - 1.0).sqrt() + semt * (16.0 * u + rel_mean) + quant_e;
         let d = if (eh.is_nan() && eb.is_nan()) || eh.to_bits() == eb.to_bits() { 0.0 } else { (xh - xb).abs() };
         stats.inc("c09_sem_checks");
         stats.worst("c09_sem_diff_over_tol", d / tol_e);
@@ -624,7 +644,7 @@ fn mean_ci_check<M: Machine>(slot: u16, s: &Slot<M>, o_h: &Obs, o_b: &Obs, onesh
                         Transform::Recip => 8.0 * u * xb.abs(),
                         _ => 0.0,
                     };
-                    let tol = t.dm + (span / t.sd) * t.dsd + 4.0 * u * (t.mu.abs() + span) + slack + 8.0 * eta::<M>();
+                    let tol = t.dm + (span / t.sd) * t.dsd + 4.0 * u * (t.mu.abs() + span) + slack + 8.0 * eta::<M>() + out_quant::<M>(tr, bh, bb);
                     let d = (xh - xb).abs();
                     stats.worst("c09_ci_diff_over_tol", d / tol);
                     if !(d <= tol) {
